@@ -336,10 +336,17 @@ var (
 func (h *httproto) unpack(m erpc.Message, bb *utils.ByteBuffer) (size int, msg []byte, err error) {
 	var bodySize int
 	var a [][]byte
+	// A frame that cannot be read to its end leaves the stream out of step: the session has
+	// to disconnect. It tolerates errors of messages whose body codec is known (body decoding
+	// errors), so the codec learnt from the headers is withdrawn.
+	fatal := func(e error) (int, []byte, error) {
+		m.SetBodyCodec(codec.NilCodecID)
+		return 0, nil, e
+	}
 	for i := 0; true; i++ {
 		err = h.readLine(bb)
 		if err != nil {
-			return 0, nil, err
+			return fatal(err)
 		}
 		if h.printMessage {
 			msg = append(msg, bb.B...)
@@ -353,7 +360,7 @@ func (h *httproto) unpack(m erpc.Message, bb *utils.ByteBuffer) (size int, msg [
 		// header
 		a = bytes.SplitN(bb.B, colonBytes, 2)
 		if len(a) != 2 {
-			return 0, nil, errBadHTTPMsg
+			return fatal(errBadHTTPMsg)
 		}
 		a[1] = bytes.TrimSpace(a[1])
 		if bytes.Equal(contentTypeBytes, a[0]) {
@@ -363,7 +370,7 @@ func (h *httproto) unpack(m erpc.Message, bb *utils.ByteBuffer) (size int, msg [
 		if bytes.Equal(contentLengthBytes, a[0]) {
 			bodySize, err = strconv.Atoi(goutil.BytesToString(a[1]))
 			if err != nil {
-				return 0, nil, errBadHTTPMsg
+				return fatal(errBadHTTPMsg)
 			}
 			size += bodySize
 			continue
@@ -371,7 +378,7 @@ func (h *httproto) unpack(m erpc.Message, bb *utils.ByteBuffer) (size int, msg [
 		if bytes.Equal(xContentEncodingBytes, a[0]) {
 			zg, err := xfer.GetByName(goutil.BytesToString(a[1]))
 			if err != nil {
-				return 0, nil, err
+				return fatal(err)
 			}
 			m.XferPipe().Append(zg.ID())
 			continue
@@ -380,7 +387,7 @@ func (h *httproto) unpack(m erpc.Message, bb *utils.ByteBuffer) (size int, msg [
 			var seq int
 			seq, err = strconv.Atoi(goutil.BytesToString(a[1]))
 			if err != nil {
-				return 0, nil, errBadHTTPMsg
+				return fatal(errBadHTTPMsg)
 			}
 			m.SetSeq(int32(seq))
 			continue
@@ -389,7 +396,7 @@ func (h *httproto) unpack(m erpc.Message, bb *utils.ByteBuffer) (size int, msg [
 			var mtype int
 			mtype, err = strconv.Atoi(goutil.BytesToString(a[1]))
 			if err != nil {
-				return 0, nil, errBadHTTPMsg
+				return fatal(errBadHTTPMsg)
 			}
 			m.SetMtype(byte(mtype))
 			continue
@@ -401,12 +408,12 @@ func (h *httproto) unpack(m erpc.Message, bb *utils.ByteBuffer) (size int, msg [
 	}
 	// refuse an announced body larger than the read limit before buffering it
 	if uint64(bodySize) > uint64(erpc.GetReadLimit()) {
-		return 0, nil, socket.ErrExceedMessageSizeLimit
+		return fatal(socket.ErrExceedMessageSizeLimit)
 	}
 	bb.ChangeLen(bodySize)
 	_, err = io.ReadFull(h.rw, bb.B)
 	if err != nil {
-		return 0, nil, err
+		return fatal(err)
 	}
 	if h.printMessage {
 		msg = append(msg, bb.B...)
